@@ -51,8 +51,9 @@ CHECKS = {
         "on the same 2500 generated pairs x 3 operations per quick run, compared structurally and on ~35 critical probes per case; "
         "the property oracle (regular probes, commutativity, empty/universal identities) runs on the implementation.",
    design="8/C05",
-   note=BASE_NOTE + "Partial: totality beyond the range level (incl. that the fuel of the difference state machine suffices) and the sortedness of "
-        "VersionUnion.of's result (false in general: '>2.0 || 2.0.post2') rest on correspondence and the oracle. Membership in theorems is the "
+   note=BASE_NOTE + "All three operations are also proved DEFINED (never raise) on operands with good members (difference: under the hypotheses of its "
+        "exactness theorem; the state machine's fuel suffices). Operands outside the hypotheses (local labels, unsorted members such as "
+        "'>2.0 || 2.0.post2', which VersionUnion.of itself builds) rest on correspondence and the oracle. Membership in theorems is the "
         "member-by-member [sem]; [allows] equals it except for a union excluding one version with a local label (proved).",
    technique="Coq proof (rank embedding + lia; translator tie for the bound comparisons) over an executable model + differential correspondence + property oracle"),
  "C12": dict(
